@@ -405,11 +405,15 @@ type Explorer struct {
 	WatchHits  int
 	Params     map[string]int
 	WitnessLabel string
+	MaxQueue     int // largest size of the work queue (frontier of unexplored decision prefixes)
 }
 
 func (ex *Explorer) push(it workItem) {
 	ex.mu.Lock()
 	ex.queue = append(ex.queue, it)
+	if len(ex.queue) > ex.MaxQueue {
+		ex.MaxQueue = len(ex.queue)
+	}
 	ex.mu.Unlock()
 	ex.cond.Signal()
 }
